@@ -158,12 +158,11 @@ theorem lowers_never_mutated (d : Disk) (ops : List Op) :
 /-- the same for a single operation from any state reachable that way, including failed ones -/
 theorem step_keeps_lowers (d : Disk) (ops : List Op) (op : Op) :
     (runOp op (run (importFs d) ops)).st.disk.lowers = d.lowers := by
+  have e : ∀ s, run s (ops ++ [op]) = (runOp op (run s ops)).st := by
+    induction ops with
+    | nil => intro s; rfl
+    | cons o rest ih => intro s; exact ih (runOp o s).st
   have h := run_inv (I := upperSpec d.lowers) (ops ++ [op]) _ (import_upper d)
-  have e : run (importFs d) (ops ++ [op]) = (runOp op (run (importFs d) ops)).st := by
-    generalize importFs d = s
-    induction ops generalizing s with
-    | nil => rfl
-    | cons o rest ih => exact ih _
   rw [e] at h
   exact h.2.2
 
